@@ -160,3 +160,21 @@ pub fn release_all() {
         }
     })
 }
+
+/// Release the oldest task held by `rule` whose fields satisfy `pred`.
+pub fn release_matching(rule: u64, pred: impl Fn(&Value) -> bool) -> bool {
+    STATE.with(|s| {
+        let mut st = s.borrow_mut();
+        if let Some(pos) = st
+            .held
+            .iter()
+            .position(|h| h.rule == rule && pred(&h.fields))
+        {
+            let h = st.held.remove(pos);
+            let _ = h.release.send(());
+            true
+        } else {
+            false
+        }
+    })
+}
